@@ -244,7 +244,9 @@ def reversibility_check_search(ctx):
                         r = integ.step(back)
                         err = np.abs(r.pos - start.pos).max()
                     except IntegratorError:
-                        err = np.inf
+                        # a loud failure on the way back is allowed (rounding-level differences can tip a borderline solve): inconclusive, not a silent irreversible move
+                        ctx.count("search:reversibility_recorded:way_back_raised")
+                        continue
                     if not err <= 1e-5:
                         bad += 1
                         ctx.fail("unrecorded_irreversible_step", f"{kind} manifold, n_inner_step={n_inner}, eps={eps}: the chain accepted a move with non_reversible_step=False and "
